@@ -245,7 +245,7 @@ func TestDotThroughProg(t *testing.T) {
 	if got := string(Marshal(res.Ops[3].Dot)); got != want {
 		t.Errorf("dot of op 3:\n%s\n got %s\nwant %s", *res.Ops[3].DotText, got, want)
 	}
-	if res.Ops[3].DotText == nil || !strings.Contains(*res.Ops[3].DotText, `"*struct { A *pool.T0 \"name:\\\"q\\\"\" }[name=n]" [label=<*struct { A *pool.T0 "name:\"q\"" }<BR />`) {
+	if res.Ops[3].DotText == nil || !strings.Contains(*res.Ops[3].DotText, `"*struct { A *pool.T0 \"name:\\\"q\\\"\" }[name=n]" [label=<*struct { A *pool.T0 &#34;name:\&#34;q\&#34;&#34; }<BR />`) {
 		t.Errorf("dotText of op 3 missing or unexpected")
 	}
 	for _, i := range []int{4, 5, 6} { // badop, badop, string
